@@ -52,8 +52,10 @@ def klass_factory(captured):
 
 # ----------------------------------------------------------------------------- scenario generation
 
-def gen_action(st, sp, events, scen_names, allow_compound=True):
+def gen_action(st, sp, events, scen_names, allow_compound=True, live=None):
     """one given/when step: (text lines, primitive actions)"""
+    if live and st.flag(3, 4):
+        events = live           # prefer events some active state reacts to
     kind = st.weighted([('send', 5), ('send_inline', 3), ('send_table', 3), ('wait', 2), ('nothing', 1),
                         ('repeat', 2 if allow_compound else 0), ('reproduce', 2 if (allow_compound and scen_names) else 0)])
     if kind == 'send':
@@ -86,16 +88,31 @@ def gen_action(st, sp, events, scen_names, allow_compound=True):
     return ['I reproduce "%s"' % name], [('reproduce', name)], kind
 
 
+def live_events(sp, plain):
+    conf = set(plain.it.configuration)
+    return sorted({t.event for t in sp.trans if t.event and t.src in conf})
+
+
 class Plain:
     """independent evaluation of given/when steps"""
 
     def __init__(self, sc):
         self.it = Interpreter(sc, initial_context={'P': Probe()})
         self.block = None
+        self.mblock = None      # what happened during the monitored block, as announced by meta-events at the time
+        self._cur = []
         self.monitoring = False
+        self.it.attach(self._listen)
+
+    def _listen(self, me):
+        if me.name in ('state entered', 'state exited'):
+            self._cur.append((me.name, me.state))
+        elif me.name == 'event sent':
+            self._cur.append((me.name, me.event.name, dict(me.event.data)))
 
     def act(self, prims, mode, library):
         def run_exec():
+            self._cur = []
             steps = self.it.execute(max_steps=300)
             if len(steps) >= 300:
                 raise Abandon('chart does not quiesce')
@@ -103,7 +120,9 @@ class Plain:
                 if not self.monitoring:
                     self.monitoring = True
                     self.block = []
+                    self.mblock = []
                 self.block.extend(steps)
+                self.mblock.extend(self._cur)
         for p in prims:
             if p[0] == 'send':
                 self.it.queue(Event(p[1], **p[2]))
@@ -121,31 +140,26 @@ class Plain:
         self.monitoring = False
 
 
-def in_block(block, what, name):
-    for ms in block:
-        for m in ms.steps:
-            if name in (m.entered_states if what == 'entered' else m.exited_states):
-                return True
-    return False
+def in_block(mblock, what, name):
+    """truth from what the interpreter announced while the block ran (not from the MacroStep objects)"""
+    return ('state ' + what, name) in [x[:2] for x in mblock]
 
 
-def fired(block, name=None, params=None):
-    for ms in block:
-        for m in ms.steps:
-            for e in m.sent_events:
-                if (name is None or e.name == name) and all(e.data.get(k, None) == v for k, v in (params or {}).items()):
-                    return True
+def fired(mblock, name=None, params=None):
+    for x in mblock:
+        if x[0] == 'event sent' and (name is None or x[1] == name) and all(x[2].get(k, None) == v for k, v in (params or {}).items()):
+            return True
     return False
 
 
 def gen_assertion(st, sp, plain, want_true):
     """(text lines, truth of the asserted fact).  The fact is chosen so that its truth is `want_true` when possible."""
-    it, block = plain.it, plain.block
+    it, block = plain.it, plain.mblock
     names = sorted(sp.states)
     kinds = ['entered', 'not entered', 'exited', 'not exited', 'active', 'not active', 'fired', 'fired_with', 'not fired',
              'no event', 'variable', 'variable not', 'expr', 'expr not', 'final', 'not final']
     kind = st.pick(kinds)
-    sent = [(e.name, e.data) for ms in block for m in ms.steps for e in m.sent_events]
+    sent = [(x[1], x[2]) for x in block if x[0] == 'event sent']
     conf = it.configuration
     v = it.context.get('v')
 
@@ -214,6 +228,8 @@ def run(ch, tier):
     cfg = swarm(ch.s('cfg'), Cfg(sends=True, bump=True, delays=False, final=True, eventless=False), tier)
     cfg.max_states = min(cfg.max_states, 8)
     cfg.eventless = False
+    if ch.s('cfg').flag(1, 3):
+        cfg.history = cfg.force_history = True
     sp = gen_spec(ch.s('chart'), cfg)
     # behave runs Interpreter.execute() without bound: the chart must quiesce, so code only sends events nothing reacts to
     triggers = {t.event for t in sp.trans}
@@ -243,7 +259,7 @@ def run(ch, tier):
         used_kinds = []
         try:
             for _ in range(st.int(0, 3)):
-                tl, prims, k = gen_action(st, sp, events, set(library))
+                tl, prims, k = gen_action(st, sp, events, set(library), live=live_events(sp, plain))
                 lines.append('    %s %s' % ('Given' if first else 'And', tl[0]))
                 lines.extend('    ' + x for x in tl[1:])
                 first = False
@@ -254,8 +270,8 @@ def run(ch, tier):
             nblocks = st.int(1, 2)
             for b in range(nblocks):
                 firstw = True
-                for _ in range(st.int(1, 3)):
-                    tl, prims, k = gen_action(st, sp, events, set(library))
+                for _ in range(st.int(1, 5 if cfg.force_history else 3)):
+                    tl, prims, k = gen_action(st, sp, events, set(library), live=live_events(sp, plain))
                     lines.append('    %s %s' % ('When' if firstw else 'And', tl[0]))
                     lines.extend('    ' + x for x in tl[1:])
                     firstw = False
@@ -359,13 +375,14 @@ def run(ch, tier):
 
 def cross_check(sp, plain):
     block = plain.block
+    mb = plain.mblock
     for n in sp.states:
-        if testing.state_is_entered(block, n) != in_block(block, 'entered', n):
-            return 'testing.state_is_entered(%r) = %r disagrees with the micro steps' % (n, testing.state_is_entered(block, n))
-        if testing.state_is_exited(block, n) != in_block(block, 'exited', n):
+        if testing.state_is_entered(block, n) != in_block(mb, 'entered', n):
+            return 'testing.state_is_entered(%r) = %r over the macro steps of the block disagrees with the state-entered meta-events announced while it ran' % (n, testing.state_is_entered(block, n))
+        if testing.state_is_exited(block, n) != in_block(mb, 'exited', n):
             return 'testing.state_is_exited(%r) = %r disagrees with the micro steps' % (n, testing.state_is_exited(block, n))
     for e in ['ea', 'eb', 'ec', 'ed', 'ez', 'ey', 'zz', None]:
-        if testing.event_is_fired(block, e) != fired(block, e):
+        if testing.event_is_fired(block, e) != fired(mb, e):
             return 'testing.event_is_fired(%r) = %r disagrees with the micro steps' % (e, testing.event_is_fired(block, e))
         cons = any(ms.event is not None and (e is None or ms.event.name == e) for ms in block)
         if testing.event_is_consumed(block, e) != cons:
